@@ -39,10 +39,10 @@ example :
 
 /-! ## accepting from an address that still has an entry -/
 
-/-- `admit` on a plain `Server` for a well-formed accepted socket, unfolded -/
+/-- `admitOne` on a plain `Server` for a well-formed accepted socket, unfolded -/
 theorem admit_plain (v : Version) (s : State) (cs : Nat) (k : Sock)
     (htls : s.tls = false) (hk : s.socks[cs]? = some k) :
-    admit v s cs k.peer =
+    admitOne v s cs k.peer =
       match get? s.ixes k.peer with
       | some old =>
         match v with
@@ -53,7 +53,7 @@ theorem admit_plain (v : Version) (s : State) (cs : Nat) (k : Sock)
       | none => .ok { s with ixes := put s.ixes k.peer { sock := cs, ca := k.peer },
                              admitted := s.admitted ++ [cs] } := by
   have hchk : ¬ (k.peer ≠ k.peer ∨ (s.tls = true ∧ s.eha ≠ k.sockname)) := by simp [htls]
-  unfold admit
+  unfold admitOne
   simp only [hk]
   rw [if_neg hchk]
   cases hg : get? s.ixes k.peer <;> cases v <;> simp [htls]
@@ -65,15 +65,15 @@ raised, `old`'s socket gets a `shutdown()` (if `old` still had one), the entry u
 theorem C26_accept_replaces_stale (s : State) (cs : Nat) (ca : Addr) (k : Sock) (old : Incomer)
     (htls : s.tls = false) (hk : s.socks[cs]? = some k) (hpeer : k.peer = ca)
     (hold : get? s.ixes ca = some old) :
-    (admit .fixed s cs ca).exc = none ∧
-      get? (admit .fixed s cs ca).state.ixes ca = some { sock := cs, ca := ca } ∧
-      (admit .fixed s cs ca).state.ixes.map (·.1) = s.ixes.map (·.1) ∧
-      (∀ ca', ca' ≠ ca → get? (admit .fixed s cs ca).state.ixes ca' = get? s.ixes ca') ∧
+    (admitOne .fixed s cs ca).exc = none ∧
+      get? (admitOne .fixed s cs ca).state.ixes ca = some { sock := cs, ca := ca } ∧
+      (admitOne .fixed s cs ca).state.ixes.map (·.1) = s.ixes.map (·.1) ∧
+      (∀ ca', ca' ≠ ca → get? (admitOne .fixed s cs ca).state.ixes ca' = get? s.ixes ca') ∧
       (old.hasCs = true → ∀ j : Nat,
-        ((admit .fixed s cs ca).state.socks[j]?).map (fun x : Sock => x.shutdowns) =
+        ((admitOne .fixed s cs ca).state.socks[j]?).map (fun x : Sock => x.shutdowns) =
           if j = old.sock then (s.socks[j]?).map (fun x : Sock => x.shutdowns + 1)
           else (s.socks[j]?).map (fun x : Sock => x.shutdowns)) ∧
-      (∀ j : Nat, ((admit .fixed s cs ca).state.socks[j]?).map (fun x : Sock => x.closed)
+      (∀ j : Nat, ((admitOne .fixed s cs ca).state.socks[j]?).map (fun x : Sock => x.closed)
         = (s.socks[j]?).map (fun x : Sock => x.closed)) := by
   subst hpeer
   rw [admit_plain .fixed s cs k htls hk, hold]
@@ -108,7 +108,7 @@ example :
 theorem C26_D14_orig_raises (s : State) (cs : Nat) (ca : Addr) (k : Sock) (old : Incomer)
     (htls : s.tls = false) (hk : s.socks[cs]? = some k) (hpeer : k.peer = ca)
     (hold : get? s.ixes ca = some old) :
-    admit .orig s cs ca = .raised .typeError s := by
+    admitOne .orig s cs ca = .raised .typeError s := by
   subst hpeer
   rw [admit_plain .orig s cs k htls hk, hold]
 
@@ -116,10 +116,10 @@ theorem C26_D14_orig_raises (s : State) (cs : Nat) (ca : Addr) (k : Sock) (old :
 theorem C26_accept_new (v : Version) (s : State) (cs : Nat) (ca : Addr) (k : Sock)
     (htls : s.tls = false) (hk : s.socks[cs]? = some k) (hpeer : k.peer = ca)
     (hnew : get? s.ixes ca = none) :
-    (admit v s cs ca).exc = none ∧
-      get? (admit v s cs ca).state.ixes ca = some { sock := cs, ca := ca } ∧
-      (admit v s cs ca).state.ixes.map (·.1) = s.ixes.map (·.1) ++ [ca] ∧
-      (admit v s cs ca).state.socks = s.socks := by
+    (admitOne v s cs ca).exc = none ∧
+      get? (admitOne v s cs ca).state.ixes ca = some { sock := cs, ca := ca } ∧
+      (admitOne v s cs ca).state.ixes.map (·.1) = s.ixes.map (·.1) ++ [ca] ∧
+      (admitOne v s cs ca).state.socks = s.socks := by
   subst hpeer
   rw [admit_plain v s cs k htls hk, hnew]
   refine ⟨rfl, get?_put_self _ _ _, ?_, rfl⟩
@@ -129,8 +129,8 @@ theorem C26_accept_new (v : Version) (s : State) (cs : Nat) (ca : Addr) (k : Soc
 /-- an accepted socket whose reported address is not its peer address is refused with `ValueError`
 and changes nothing -/
 theorem C26_malformed_refused (v : Version) (s : State) (cs : Nat) (ca : Addr) (k : Sock)
-    (hk : s.socks[cs]? = some k) (hbad : ca ≠ k.peer) : admit v s cs ca = .raised .valueError s := by
-  simp only [admit, hk, hbad, ne_eq, not_false_eq_true, true_or, if_true]
+    (hk : s.socks[cs]? = some k) (hbad : ca ≠ k.peer) : admitOne v s cs ca = .raised .valueError s := by
+  simp only [admitOne, hk, hbad, ne_eq, not_false_eq_true, true_or, if_true]
 
 /-! ## removing, closing -/
 
